@@ -33,12 +33,15 @@ def make_server_class(base: type) -> type:
     class EchoTransport(base):  # type: ignore[misc, valid-type]
         """gallia's real connection loop; only the UDS layer behind it is replaced."""
 
-        def __init__(self, target: TargetURI, seen: list[bytes]) -> None:
+        def __init__(self, target: TargetURI, seen: list[bytes], think: float = 0.0) -> None:
             self.target = target
             self.seen = seen
+            self.think = think
 
         async def handle_request(self, request_pdu: bytes) -> tuple[bytes | None, float]:
             self.seen.append(bytes(request_pdu))
+            if self.think:
+                await asyncio.sleep(self.think)  # a server that needs time per request (e.g. the database-backed one)
             return transform(request_pdu), 0.0
 
     return EchoTransport
@@ -122,6 +125,8 @@ class C19(Check):
         plan["first_gap"] = rng.choice([0.0, 0.001, 0.3])
         plan["reads"] = [rng.choice([0.2, 0.2, 1.0]) for _ in range(rng.choice([0, 1, 2, 4]))]
         plan["eof"] = rng.random() < 0.5
+        plan["srv_think"] = rng.choice([0.0, 0.0, 0.0005, 0.01])
+        plan["half_close"] = rng.random() < 0.5
         plan["lat"] = rng.choice([[0.0001, 0.0004], [0.0005, 0.002]])
         plan["net_seed"] = rng.getrandbits(30)
         # the opposite direction (produced by the code under test) gets a random network segmentation
@@ -229,7 +234,7 @@ class C19(Check):
             seen: list[bytes] = []
             holder["seen"] = seen
             base = TCPUDSServerTransport if plan["scheme"] == "tcp" else UnixUDSServerTransport
-            srv = make_server_class(base)(TargetURI(uri), seen)
+            srv = make_server_class(base)(TargetURI(uri), seen, plan.get("srv_think", 0.0))
             srv_task = loop.create_task(srv.run())
             loop.keep.append(srv_task)
             await asyncio.sleep(0)
@@ -252,8 +257,14 @@ class C19(Check):
                 t = loop.create_task(rxloop())
                 loop.keep.append(t)
                 await send_segmented(writer, stream_of(plan["msgs"]))
-                await asyncio.sleep(1.0)
-                holder["handler_done_before_close"] = [h.done() for h in net.handler_tasks]
+                if plan.get("half_close"):
+                    # pipelined requests followed by a half-close: the end of stream may already be buffered
+                    # when the server loop reads the last line
+                    writer.write_eof()
+                    await asyncio.sleep(1.0 + len(msgs) * plan.get("srv_think", 0.0))
+                else:
+                    await asyncio.sleep(1.0 + len(msgs) * plan.get("srv_think", 0.0))
+                    holder["handler_done_before_close"] = [h.done() for h in net.handler_tasks]
                 writer.close()
                 await asyncio.sleep(0.05)
                 return None
@@ -365,7 +376,9 @@ class C19(Check):
             inside = sum(1 for s in segs if pos < s["at"] < pos + ln)
             pat.append(str(min(inside, 3)))
             pos += ln
-        res["shape"] = f"{mode}|{plan['scheme']}|n{min(len(msgs), 9)}|{''.join(pat)}|c{min(coal, 3)}|t{min(timeouts_midline, 3)}|{'eof' if plan['eof'] else ''}|{plan['back_segment']}"
+        if mode == "server" and plan.get("half_close"):
+            bump(res["faults"], "half_close_after_pipelined_requests")
+        res["shape"] = f"{mode}|{plan['scheme']}|{'hc' if plan.get('half_close') else ''}{'th' if plan.get('srv_think') else ''}|n{min(len(msgs), 9)}|{''.join(pat)}|c{min(coal, 3)}|t{min(timeouts_midline, 3)}|{'eof' if plan['eof'] else ''}|{plan['back_segment']}"
         res["nontrivial"] = bool(n_split or coal or timeouts_midline)
         return res
 
